@@ -747,6 +747,43 @@ fn main() {
                 }
             }
         }
+        // version_builder_edits @level files... {--edit --delete l:n ... --add @level files...}* : several edits accumulated on one
+        // builder (manifest replay), then applied to the base version
+        "version_builder_edits" => {
+            let mut base_toks: Vec<&str> = vec![];
+            let mut edits: Vec<(Vec<(usize, u64)>, Vec<&str>)> = vec![];
+            let mut mode = 0;
+            for t in &a[1..] {
+                match *t {
+                    "--edit" => { edits.push((vec![], vec![])); mode = 3; }
+                    "--delete" => mode = 1,
+                    "--add" => mode = 2,
+                    _ => match mode {
+                        0 => base_toks.push(*t),
+                        1 => {
+                            let p: Vec<&str> = t.split(':').collect();
+                            edits.last_mut().unwrap().0.push((num(p[0]) as usize, num(p[1])));
+                        }
+                        2 => edits.last_mut().unwrap().1.push(*t),
+                        _ => {}
+                    },
+                }
+            }
+            let edits: Vec<(Vec<(usize, u64)>, Vec<(usize, Vec<v::VFile>)>)> = edits.into_iter().map(|(d, toks)| (d, levels(&toks))).collect();
+            std::panic::set_hook(Box::new(|_| {}));
+            match v::version_builder_apply_edits(opts(), &levels(&base_toks), &edits) {
+                Ok(lv) => {
+                    println!("panicked=false");
+                    for (i, l) in lv.iter().enumerate() {
+                        println!("l{}={}", i, join(l));
+                    }
+                }
+                Err(msg) => {
+                    println!("panicked=true");
+                    println!("panic_message={}", msg.replace('=', ":"));
+                }
+            }
+        }
         // remove_obsolete vs_curr_wal vs_prev_wal|none field_curr_wal live in_use bad(0|1) dir:kind:number ...
         "remove_obsolete" => {
             let prev = if a[2] == "none" { None } else { Some(num(a[2])) };
